@@ -1570,6 +1570,13 @@ func runFsPath(c *Ctx) (err error) {
 		}
 	}
 
+	// ---- clean-up that cannot succeed: a foreign object appears inside the directory the client made ----
+	for i, n := 0, c.Pick(6, 40); i < n; i++ {
+		for _, v := range fsCleanupForeign(c, g, g.n(2) == 0) {
+			fsViolate(c, v)
+		}
+	}
+
 	// ---- whole server exchange ----
 	for rep, nrep := 0, c.Pick(2, 20); rep < nrep; rep++ {
 		for _, kind := range fsServerKinds {
@@ -1627,4 +1634,64 @@ func runFsPath(c *Ctx) (err error) {
 		c.Res.Notes = append(c.Res.Notes, "observation (outside the property's quantifier, which ranges over path strings with a working transport): when the client cannot send its result code the directory it created is not removed (the clean-up is registered after the send); the model has the same behaviour (Env.sendOk = false)")
 	}
 	return diffBatch(c, "fspath", cases, nil)
+}
+
+// fsCleanupForeign: an accepted path, the client creates its directory and reports success; before the
+// verdict arrives another local process drops a file INTO that directory. The client's clean-up can
+// then only fail (rmdir of a non-empty directory): it must fail cleanly — the exchange still ends with
+// its ordinary result, nothing panics, and the foreign object is not destroyed (removing "whatever
+// the client created" never extends to what others put there). Implementation observables only.
+func fsCleanupForeign(c *Ctx, g *fsGen, remote bool) (bad []Violation) {
+	peer := g.peer()
+	var leaf, target string
+	for try := 0; try < 5; try++ {
+		leaf, _ = g.goodLeaf(remote, peer)
+		target = fsBase + "/" + leaf
+		if _, err := os.Lstat(target); err != nil {
+			break
+		}
+	}
+	intruder := filepath.Join(target, "left-by-someone-else")
+	conn := &fsConn{remote: peer}
+	conn.in = append(fsFrame(1, append([]byte(target), 0)), fsFrame(1, fsIntBody(0))...)
+	planted := false
+	conn.afterW = func() {
+		if planted {
+			return
+		}
+		if _, ok := fsFirstMessage(conn.out); ok {
+			if fi, err := os.Lstat(target); err == nil && fi.IsDir() {
+				planted = os.WriteFile(intruder, []byte("x"), 0o600) == nil
+			}
+		}
+	}
+	st := stream.NewStream(conn)
+	var err error
+	func() {
+		defer func() {
+			if r := recover(); r != nil {
+				err = fmt.Errorf("PANIC: %v", r)
+			}
+		}()
+		err = security.VerifFSAuthClient(bg, st, remote)
+	}()
+	ops := []string{fmt.Sprintf("# client exchange remote=%v path=%s verdict 0; at reply time a file is created inside the client's directory", remote, strconv.Quote(target))}
+	c.Count("client:cleanup-with-foreign-object-inside")
+	c.Res.Evaluations++
+	if err != nil && strings.HasPrefix(err.Error(), "PANIC") {
+		bad = append(bad, Violation{Property: "C18", Key: "C18:client-panic", What: "the client panicked when its clean-up could not succeed", Ops: ops, Expected: "clean return", Observed: "panic"})
+	}
+	if planted {
+		if _, e := os.Lstat(intruder); e != nil {
+			bad = append(bad, Violation{Property: "C18", Key: "C18:foreign-object-touched", What: "the client's clean-up destroyed an object it did not create (a file another process put into the directory)", Ops: ops, Expected: "the foreign file is left alone (the directory stays, non-empty)", Observed: "file gone"})
+		}
+		if err != nil && !strings.HasPrefix(err.Error(), "PANIC") {
+			bad = append(bad, Violation{Property: "C18", Key: "C18:cleanup-failure-changes-result", What: "a clean-up that cannot succeed changed the outcome of an otherwise successful exchange", Ops: ops, Expected: "success (verdict 0 was received)", Observed: "error class " + fsClientErrClass(err, true)})
+		}
+	} else {
+		c.Count("client:cleanup-foreign-object-not-planted")
+	}
+	_ = os.Remove(intruder)
+	_ = os.Remove(target)
+	return bad
 }
